@@ -91,8 +91,9 @@ def run(chk):
             if o.kind == "panic":
                 chk.ob("R01.1", "no-panic", False, "a panic is reachable in the threshold loop: %s" % (o.info,), site=C.site(b, o.bb))
             continue
-        stores = [e for e in o.trace if e[0] == "store" and e[3][0] == "var" and e[3][1] == C.CB]
-        other = [e for e in o.trace if e[0] == "store" and not (e[3][0] == "var" and e[3][1] == C.CB)]
+        tr = o.trace[len(H0.trace):]
+        stores = [e for e in tr if e[0] == "store" and e[3][0] == "var" and e[3][1] == C.CB]
+        other = [e for e in tr if e[0] == "store" and not (e[3][0] == "var" and e[3][1] == C.CB)]
         # the iterator must have produced an element on this path
         score_syms = [s for s, c in o.cons.items() if c[0] in ("ival", "eq") and (c[0] == "ival" or c[1][0] == "i") and "@Some" in s]
         if not stores and not score_syms:
